@@ -60,6 +60,7 @@ ALPHABET = [
     ["select", [Cn("k"), Cn("x")]],
     ["mutate", [["x", ["sub", lit(10), Cn("x")]]]],  # overwrite (order-reversing, so that a mix-up of old and new x shows)
     ["mutate", [["c", lit(1)]]],  # constant column (must not be padded with the constant by an outer join)
+    ["mutate", [["w", ["case", [[["gt", Cn("x"), ["mean", Cn("x")]], lit(2)]], lit(0)]]]],  # window function only in a when-condition
     # the filter of the right operand of an inner join becomes part of the WHERE clause of the join
     ["join", {"src": "U", "hist": [["filter", [["gt", ["col", "src", "U", "x"], lit(2)]]]]}, "inner", [["eq", Cn("k"), ["col", "right", "k"]]]],
     # the right operand is itself a subquery
@@ -187,7 +188,18 @@ def check_c08(step):
     return vs
 
 
+# part C: a grouped table with a window column behind an alias(): the subquery that a following
+# filter forces has to provide the grouping columns for the verbs after it
+PART_C_ROOTS = [
+    [["source", "T"], ["group_by", [Cn("g")]], ["mutate", [["w", ["row_number", {"arrange": [Cn("k")]}]]]], ["alias"]],
+    [["source", "T"], ["group_by", [Cn("g")]], ["mutate", [["w", ["sum", Cn("x")]]]], ["select", [Cn("k"), Cn("x"), Cn("w")]], ["alias"]],
+]
+
+
 def make_explorer(world, depth=3, part="A"):
+    if part == "C":
+        return X.Explorer(world, alphabet=lambda st, hist: REDUCED + [["filter", [["gt", Cn("w"), lit(1)]]], ["ungroup"]], checks=[check_c08],
+                          depth=depth, oracle="both", names="list", size=size)
     if part == "B":
         return X.Explorer(world, alphabet=alphabet_b(depth), checks=[check_c08], depth=depth, oracle="both", names="list", size=size)
     return X.Explorer(world, alphabet=alphabet, checks=[check_c08], depth=depth, oracle="both", names="list", size=size)
@@ -203,12 +215,17 @@ def tasks(tier):
             continue
         out += [{"world": wi, "first": [i]} for i in range(N_FIRST)]
     out += [{"world": 0, "first": [i], "part": "B"} for i in range(len(REDUCED))]
+    out += [{"world": 0, "first": None, "part": "C", "root": i} for i in range(len(PART_C_ROOTS))]
     return out
 
 
 def run_task(task, tier):
     w = worlds(tier)[task["world"]]
     part = task.get("part", "A")
+    if part == "C":
+        root = PART_C_ROOTS[task["root"]]
+        d = size(root) + 2
+        return base.run_history_task(lambda ww: make_explorer(ww, d, "C"), w, root, None, params={"depth": d, "part": "C"})
     d = DEPTH[tier] + (1 if part == "B" else 0)
     return base.run_history_task(lambda ww: make_explorer(ww, d, part), w, [["source", "T"]], task["first"],
                                  params={"depth": d, "part": part})
